@@ -35,7 +35,7 @@ directive @tag(name: String!) repeatable on FIELD | FRAGMENT_SPREAD | INLINE_FRA
 extend type Query { extra: Date }
 "#;
 
-const OPERATIONS: &str = r#"query GetUser($id: ID!, $loud: Boolean = false, $f: Filter = {word: "q"}) @tag(name: "a") {
+const OPERATIONS: &str = r#"query GetUser($id: ID!, $loud: Boolean! = false, $f: Filter = {word: "q"}) @tag(name: "a") {
   user(id: $id, filter: $f) { ...UserFrag posts { id title author { id } } kind when }
   hello(times: 3, loud: $loud) @skip(if: $loud)
   things(first: 2) { ... on User { name } ... on Post { title } ... @include(if: true) { __typename } }
@@ -270,6 +270,10 @@ fn edge_cases() -> Vec<Case> {
     v.push(sc("scalar without a TypeScript type", "scalar Mystery\nextend type Query { m: Mystery }"));
     v.push(sc("nitrogql_ts_type with odd arguments", "scalar Odd @nitrogql_ts_type(resolverInput: 1, resolverOutput: \"a\")\nscalar Odd2 @nitrogql_ts_type\nextend type Query { o: Odd o2: Odd2 }"));
     v.push(sc("default values of the wrong shape", "input D { a: Int = \"s\" b: [Int] = {x: 1} c: D = [[1]] }\nextend type Query { d(x: D = 3): Int }"));
+    v.push(sc("block description indented with wide and ASCII spaces", "\"\"\"\n\u{a0}\u{a0}first\n  second\n\u{3000}\u{3000}third\n\"\"\"\ntype D1 { \"\"\"\n\u{3000}a\n  b\n\"\"\" f: Int }"));
+    v.push(sc("block description with a blank line of wide spaces", "\"\"\"\n    first\n\u{3000}\u{3000}\n    second\n\"\"\"\ntype D2 { f: Int }\n\"\"\"\n\tone\n \ttwo\n\t three\n\"\"\"\nenum D3 { \"\"\"\n\u{2003}x\n y\n\"\"\" A }"));
+    v.push(sc("block description: one ASCII space against two-byte and three-byte spaces", "\"\"\"\n one\n\u{a0}\u{a0}two\n\u{3000}three\n\"\"\"\ntype D5 { \"\"\"\n  a\n\u{3000}\u{3000}b\n\"\"\" f: Int \"\"\"\n\u{a0}x\n\u{2003}y\n z\n\"\"\" g: Int }"));
+    v.push(sc("block description of emoji and combining characters", "\"\"\"\n  \u{1F600}\u{301} wide\n\u{1F600} start\n   e\u{301}\n\"\"\"\ninput D4 { \"\u{1F600}\" f: Int = 1 }"));
     v.push(sc("descriptions with odd characters", "\"\"\"\n`${x}` \\ \"\"\n\"\"\"\ntype Odd3 { \"\\u0007 \\\" \\\\\" f: Int }"));
     v.push(cf("invalid YAML", "schema: [unclosed\n  documents: }"));
     v.push(cf("empty config", ""));
